@@ -155,12 +155,16 @@ func main() {
 			}
 			defer l.Close()
 			rep.Scenarios++
+			// all streams go through the same loaded matcher, one after the other: a failure
+			// that needs the previous stream (state kept in the matcher) is replayed with it
+			var seq runner.Seq
 			streams(sc.Spec, tier, func(s []byte) bool {
+				one := *sc
+				one.Stream = hex.EncodeToString(s)
 				n, whole := judgeStream(l, s, func(sig, msg string) {
-					one := *sc
-					one.Stream = hex.EncodeToString(s)
-					rep.Fail(&one, sig, msg, nil)
+					seq.FailAfter(rep, &one, sig, msg, nil)
 				})
+				seq.Done(&one, nil)
 				rep.Executions += int64(n)
 				rep.Transitions += int64(n)
 				rep.States += int64(len(s) + 1)
@@ -182,6 +186,24 @@ func main() {
 				return nil
 			}
 			defer l.Close()
+			s, _ := hex.DecodeString(sc.Stream)
+			var out []explore.Failure
+			judgeStream(l, s, func(sig, msg string) { out = append(out, explore.Failure{Sig: sig, Msg: msg}) })
+			return out
+		},
+		ReplayH: func(hist []runner.HistItem, scAny any, _ []int) []explore.Failure {
+			sc := scAny.(*Scn)
+			l, err := mrun.Load(sc.Spec)
+			if err != nil {
+				return nil
+			}
+			defer l.Close()
+			for _, it := range hist {
+				hs := &Scn{}
+				json.Unmarshal(it.Scenario, hs)
+				b, _ := hex.DecodeString(hs.Stream)
+				judgeStream(l, b, func(string, string) {})
+			}
 			s, _ := hex.DecodeString(sc.Stream)
 			var out []explore.Failure
 			judgeStream(l, s, func(sig, msg string) { out = append(out, explore.Failure{Sig: sig, Msg: msg}) })
